@@ -97,7 +97,10 @@ func sharedMode(t *testing.T, rec *Recorder) {
 							solo = &Built{G: fresh.Derive(k)}
 						}
 						for i := 0; i < sc.Iters; i++ {
-							v, crashed := exampleOf(solo, seedOf(k, i))
+							v, raw, crashed := exampleRaw(solo, seedOf(k, i))
+							if sc.Gen.K == "Permutation" && !crashed {
+								useUp(raw)
+							}
 							rec.Emit("solo", F{"key": fmt.Sprintf("r%d/k%d/i%d", round, k, i), "draws": v, "crashed": crashed})
 						}
 					}
@@ -107,6 +110,7 @@ func sharedMode(t *testing.T, rec *Recorder) {
 				results := make([][]string, sc.K)
 				crashes := make([][]bool, sc.K)
 				raws := make([][]any, sc.K)
+				posts := make([][]string, sc.K) // what the value looked like when the check was done with it
 				if sc.Pairing == "interleave" {
 					pause.count.Store(0)
 					pause.target = int64(sc.PauseAt)
@@ -173,6 +177,12 @@ func sharedMode(t *testing.T, rec *Recorder) {
 							v, raw, c := exampleRaw(mine, seedOf(k, i))
 							results[k] = append(results[k], v)
 							crashes[k] = append(crashes[k], c)
+							if sc.Gen.K == "Permutation" && !c {
+								useUp(raw) // the check uses its value up (in place); the shared generator must not notice
+								posts[k] = append(posts[k], deepVal(raw))
+							} else {
+								posts[k] = append(posts[k], v)
+							}
 							raws[k] = append(raws[k], raw)
 						}
 					}()
@@ -182,7 +192,7 @@ func sharedMode(t *testing.T, rec *Recorder) {
 				for k := 0; k < sc.K; k++ {
 					for i := range results[k] {
 						// the values drawn earlier are looked at once more after everything else has been drawn: they must not have changed
-						stable := crashes[k][i] || deepVal(raws[k][i]) == results[k][i]
+						stable := crashes[k][i] || deepVal(raws[k][i]) == posts[k][i]
 						rec.Emit("shared", F{"key": fmt.Sprintf("r%d/k%d/i%d", round, k, i), "draws": results[k][i], "crashed": crashes[k][i], "stable": stable})
 					}
 				}
